@@ -1,20 +1,21 @@
 #!/bin/bash
-# usage: tools/try_seed_alt.sh <patch.diff> <check id>...
-# Like try_seed.sh, but on a scratch copy: /tmp/alt/verif (copy of /verif incl. build output) and /tmp/alt/repo (git
-# worktree of /repo with the patch applied), so that it can run while other checks use /repo.  Nothing in /repo or /verif
-# is touched.  Remove the scratch with:  git -C /repo worktree remove --force /tmp/alt/repo; rm -rf /tmp/alt
+# usage: [ALT_DIR=/tmp/alt2] tools/try_seed_alt.sh <patch.diff> <check id>...
+# Like try_seed.sh, but on a scratch copy: $A/verif (copy of /verif incl. build output) and $A/repo (git worktree of /repo
+# with the patch applied), A = ${ALT_DIR:-/tmp/alt}, so that it can run while other checks use /repo.  Nothing in /repo or
+# /verif is touched.  Remove the scratch with:  git -C /repo worktree remove --force $A/repo; rm -rf $A
 set -u
+A=${ALT_DIR:-/tmp/alt}
 patch=$(readlink -f "$1"); shift
-mkdir -p /tmp/alt
-if [ ! -d /tmp/alt/repo ]; then git -C /repo worktree add -q --detach /tmp/alt/repo HEAD || exit 2; fi
-git -C /tmp/alt/repo checkout -q --detach "$(git -C /repo rev-parse HEAD)" && git -C /tmp/alt/repo checkout -q -- . || exit 2
-rsync -a --delete --exclude .git --exclude replays --exclude evidence /verif/ /tmp/alt/verif/ || exit 2
-mkdir -p /tmp/alt/verif/replays /tmp/alt/verif/evidence
-sed -i 's#"/repo#"/tmp/alt/repo#g' /tmp/alt/verif/harness/Cargo.toml /tmp/alt/verif/miri/Cargo.toml
-git -C /tmp/alt/repo apply "$patch" || { echo "patch does not apply"; exit 2; }
+mkdir -p $A
+if [ ! -d $A/repo ]; then git -C /repo worktree add -q --detach $A/repo HEAD || exit 2; fi
+git -C $A/repo checkout -q --detach "$(git -C /repo rev-parse HEAD)" && git -C $A/repo checkout -q -- . || exit 2
+rsync -a --delete --exclude .git --exclude replays --exclude evidence /verif/ $A/verif/ || exit 2
+mkdir -p $A/verif/replays $A/verif/evidence
+sed -i "s#\"/repo#\"$A/repo#g" $A/verif/harness/Cargo.toml $A/verif/miri/Cargo.toml
+git -C $A/repo apply "$patch" || { echo "patch does not apply"; exit 2; }
 for id in "$@"; do
   echo "=== $id"
-  (cd /tmp/alt/verif && NUCLEO_REPO=/tmp/alt/repo timeout 2400 ./check $id --tier quick 2>&1 | grep -E '^VIOLATION|^KNOWN-FINDING|^# |OK tier' | cut -c1-400 | head -8)
+  (cd $A/verif && NUCLEO_REPO=$A/repo timeout 2400 ./check $id --tier quick 2>&1 | grep -E '^VIOLATION|^KNOWN-FINDING|^# |OK tier' | cut -c1-400 | head -8)
 done
-git -C /tmp/alt/repo checkout -q -- .
+git -C $A/repo checkout -q -- .
 echo "=== done (scratch copy)"
